@@ -423,10 +423,10 @@ func runC13(c c13Case) vh.Result {
 				mu.Lock()
 				log += " | events: " + strings.Join(evLog, "; ")
 				mu.Unlock()
-				res.Fail("retry-after-permanent-error", "%s: credentials were rejected (permanent error) but %d further connection attempts followed; connections: %s", desc, got-len(l.Fails)-1, log)
+				res.Fail("t/retry-after-permanent-error", "%s: credentials were rejected (permanent error) but %d further connection attempts followed; connections: %s", desc, got-len(l.Fails)-1, log)
 			}
 			if s := nextSession(10 * time.Millisecond); s != nil {
-				res.Fail("session-after-permanent-error", "%s: a session was established after the permanent error", desc)
+				res.Fail("t/session-after-permanent-error", "%s: a session was established after the permanent error", desc)
 			}
 			break
 		}
@@ -466,7 +466,7 @@ func runC13(c c13Case) vh.Result {
 			}
 		}
 		if final == "ok-resume" && !ns.resumed && !cutAtResume && resumable {
-			res.Fail("not-resumed", "%s: after %s the server offered resumption but the client bound a fresh session", desc, label)
+			res.Fail("t/not-resumed", "%s: after %s the server offered resumption but the client bound a fresh session", desc, label)
 		}
 		cur = ns
 		resumable = c.SM // the new session (resumed, or freshly bound with SM enabled again) is resumable again
@@ -494,10 +494,15 @@ func runC13(c c13Case) vh.Result {
 			mu.Lock()
 			log := strings.Join(connLog, "; ")
 			mu.Unlock()
-			res.Fail("extra-connections", "%s: after %s %d connections reached the server, expected %d failing attempts and one session; connections: %s", desc, label, got, len(l.Fails), log)
+			mu.Lock()
+			log += " | events: " + strings.Join(evLog, "; ")
+			mu.Unlock()
+			_, errs, _ := rec.snapshot()
+			log += fmt.Sprintf(" | error callbacks: %v", errs)
+			res.Fail("t/extra-connections", "%s: after %s %d connections reached the server, expected %d failing attempts and one session; connections: %s", desc, label, got, len(l.Fails), log)
 		}
 		if s := nextSession(time.Millisecond); s != nil {
-			res.Fail("two-sessions", "%s: after %s a second session was established", desc, label)
+			res.Fail("t/two-sessions", "%s: after %s a second session was established", desc, label)
 		}
 	}
 	if c.KeepaliveMs > 0 && c.Permanent == "" && len(res.Violations) == 0 {
@@ -513,7 +518,7 @@ func runC13(c c13Case) vh.Result {
 		after := accepted
 		mu.Unlock()
 		if after != before {
-			res.Fail("session-ended-by-predecessor", "%s: the last session was left alone for 1.3 s, yet %d more connections reached the server (the client gave the session up on its own)", desc, after-before)
+			res.Fail("t/session-ended-by-predecessor", "%s: the last session was left alone for 1.3 s, yet %d more connections reached the server (the client gave the session up on its own)", desc, after-before)
 		} else if !exercise(cur, 0, "held") {
 			return res
 		}
@@ -522,7 +527,7 @@ func runC13(c c13Case) vh.Result {
 	gotPost := postConnects
 	pcMu.Unlock()
 	if gotPost != expectPost {
-		res.Fail("postconnect-count", "%s: PostConnect ran %d times for %d sessions", desc, gotPost, expectPost)
+		res.Fail("t/postconnect-count", "%s: PostConnect ran %d times for %d sessions", desc, gotPost, expectPost)
 	}
 	// Stop makes Run return
 	stopped := make(chan struct{})
@@ -550,7 +555,7 @@ func runC13(c c13Case) vh.Result {
 
 var c13 = vh.Define(&vh.Def[c13Case]{
 	Property: "C13", Name: "streammanager",
-	Rule: "fault sequences of 1-3 losses on successive connections of a Client under StreamManager.Run (keepalive interval 2-40 ms in a third of the sequences, so that keepalives fall into the time spent reconnecting; 30 s otherwise, and with the short interval the last session is held for 1.3 s - longer than Transport.Close waits - and must still be the same and working; every connection over STARTTLS with the client insisting on it in a third): each loss = how the established connection ends (TCP reset, graceful TCP close, </stream:stream> from the server, a system-shutdown stream error followed by the stream end) after 0-3 stanzas in each direction x the server refusing connections for 0 or 10-150 ms (listener closed, later reopened on the same port) x 0-3 reconnection attempts that fail during negotiation (connection cut at stream open / auth / bind) x resumption confirmed or refused; optionally the last reconnection is rejected with a SASL failure (permanent), or Stop is called while the manager is still reconnecting against a server that is down; oracle on the peer's accept log and sessions: after each loss exactly one further session is established (resumed when the server confirms), exactly failing-attempts+1 connections reach the server, the new session receives and sends, PostConnect ran once per session, after the permanent error no further attempt is made within 600 ms, Stop makes Run return; sessions are counted, not attempts: attempts beyond the script that never became a session are a label, and a permanent error is only asserted when the refusing connection got as far as <auth/>; non-trivial = at least one loss after establishment",
+	Rule: "fault sequences of 1-3 losses on successive connections of a Client under StreamManager.Run (keepalive interval 2-40 ms in a third of the sequences, so that keepalives fall into the time spent reconnecting; 30 s otherwise, and with the short interval the last session is held for 1.3 s - longer than Transport.Close waits - and must still be the same and working; every connection over STARTTLS with the client insisting on it in a third): each loss = how the established connection ends (TCP reset, graceful TCP close, </stream:stream> from the server, a system-shutdown stream error followed by the stream end) after 0-3 stanzas in each direction x the server refusing connections for 0 or 10-150 ms (listener closed, later reopened on the same port) x 0-3 reconnection attempts that fail during negotiation (connection cut at stream open / auth / bind) x resumption confirmed or refused; optionally the last reconnection is rejected with a SASL failure (permanent), or Stop is called while the manager is still reconnecting against a server that is down; oracle on the peer's accept log and sessions: after each loss exactly one further session is established (resumed when the server confirms), exactly failing-attempts+1 connections reach the server, the new session receives and sends, PostConnect ran once per session, after the permanent error no further attempt is made within 600 ms, Stop makes Run return; sessions are counted, not attempts: attempts beyond the script that never became a session are a label, and a permanent error is only asserted when the refusing connection got as far as <auth/>; verdicts about how many sessions / attempts there were depend on schedules the harness does not own and are confirmed by one re-run of the same case (unconfirmed ones are counted as timing_retry_passed); non-trivial = at least one loss after establishment",
 	Quick: 64, Thorough: 2500, Journal: true,
 	Gen: genC13, Run: runC13,
 })
